@@ -1271,6 +1271,14 @@ func runC02(c *Ctx) error {
 	if err := runC02SinkModel(c, dir); err != nil {
 		return err
 	}
+	// Value.Int(): constants of every integer kind and width against math/big (c02_valueint.go)
+	if err := runC02ValueInt(c, dir); err != nil {
+		return err
+	}
+	// predicates whose argument goes through the group's Import() table, in files of several groups (c02_imports.go)
+	if err := runC02Imports(c); err != nil {
+		return err
+	}
 	return nil
 }
 
